@@ -43,6 +43,8 @@ def run(chk, tier):
     for feats in configs_for(tier):
         prog = mir.Program(facts.load_mir(feats))
         check_config(chk, prog, prog.config)
+    from . import common_registry as cr_
+    cr_.check_debug_asserts(chk, rule="R10.P")
     n_e = len({i["construct"] for i in chk.instances if i["rule"] == "R10.E"})
     chk.floor("R10.E", n_e, 9, "id-typed places of PortableType counted by hand on today's tree: 9")
 
